@@ -68,6 +68,20 @@ def gen(rng, tier):
             ops = ops + ["R"] + second + ["N"] + second
             kind += "-reuse"
         out.append((line(depth, fl, ops), {"kind": kind, "reuse": reuse}))
+    # small scope, exhaustively: EVERY string over the bytes that select a different transition of the state machine,
+    # up to length 3 (quick) / 4 (thorough), NUL-terminated, default and strict mode — each one also as the
+    # continuation of an opened array (so that the in-container states see every short string too)
+    import itertools
+    small = b'{}[]:,"\\/* \n0-1.eEtn\'\x7f\xc3'
+    small = bytes(sorted(set(small)))
+    for ln in range(0, 4 if tier == "quick" else 5):
+        for tup in itertools.product(small, repeat=ln):
+            t = bytes(tup)
+            for fl in (0, 1):
+                out.append((line(32, fl, ["Z" + hx(t)]), {"kind": "small-scope", "reuse": False}))
+            if ln <= 3:
+                out.append((line(32, 0, ["Z" + hx(b"[" + t)]), {"kind": "small-scope", "reuse": False}))
+                out.append((line(32, 1, ["Z" + hx(b'{"k":' + t)]), {"kind": "small-scope", "reuse": False}))
     # an invalid length argument (len < -1) is refused with the size error, leaves the caller's locale alone and keeps
     # nothing; the parser is reusable after a reset
     for ln in (-2, -3, -100, -2147483647, -2147483648):
